@@ -335,7 +335,7 @@ impl Drop for Tracked {
         let r0 = self.raw();
         // A destructor run by the crate is user code during which the other threads run: the
         // memory of the value must stay untouched until it returns.
-        if !std::thread::panicking() && sched().in_call() {
+        if !crate::rt::genuinely_panicking() && sched().in_call() {
             sched().harness_point(ADDR_PAYLOAD);
         }
         let r = self.raw();
